@@ -130,6 +130,7 @@ func VerifyFunc(w *World, rel string, c *Contract, fn *ssa.Function) *FuncReport
 			for _, l := range st2.locks {
 				x.oblige(st2, "lock", "held at return: "+l.guard.Struct+"."+l.guard.Mutex, "", FalseT, fn.Pos())
 			}
+			x.checkEmits(st2, env, c, fn, true)
 			x.checkFrame(st2, c, fn, args, "return")
 		}
 		pan := func(st2 *State) {
@@ -139,6 +140,10 @@ func VerifyFunc(w *World, rel string, c *Contract, fn *ssa.Function) *FuncReport
 			for i, p := range fn.Params {
 				env.vars[p.Name()] = args[i]
 			}
+			if st2.panicking != nil {
+				env.vars["panicval"] = *st2.panicking
+			}
+			x.checkEmits(st2, env, c, fn, false)
 			x.checkFrame(st2, c, fn, args, "panic")
 			if c.NoPanic != nil {
 				x.oblige(st2, "nopanic", c.NoPanic.Label, strings.Join(lastPanicTrace(st2.trace), ";"), FalseT, fn.Pos())
@@ -169,6 +174,26 @@ func VerifyFunc(w *World, rel string, c *Contract, fn *ssa.Function) *FuncReport
 		x.runBody(st, fi)
 	}()
 
+	// every ghost statement must have been reached on some path: an anchor that
+	// names a call/store the function no longer has means the contract does not
+	// fit the code (reported as a contract mismatch, never as a pass)
+	if len(x.errors) == 0 {
+		check := func(cc *Contract) {
+			for _, g := range cc.Ghosts {
+				if !x.usedGhost[fmt.Sprintf("%s:%d", cc.Key, g.Line)] {
+					x.errorf("contract-mismatch: ghost anchor %q of %s (line %d) is never reached", g.Anchor, cc.Key, g.Line)
+				}
+			}
+		}
+		check(c)
+		if cf := w.contracts[rel]; cf != nil {
+			for _, k := range sortedKeys(cf.Funcs) {
+				if cc := cf.Funcs[k]; cc.Inline && strings.HasPrefix(k, c.Key+"$") {
+					check(cc)
+				}
+			}
+		}
+	}
 	rep.Obls = x.obls
 	for _, ob := range rep.Obls {
 		ob.Query = x.query(ob, true)
@@ -187,6 +212,51 @@ func VerifyFunc(w *World, rel string, c *Contract, fn *ssa.Function) *FuncReport
 	rep.LoopsInv = len(c.Loops)
 	rep.Secs = time.Since(t0).Seconds()
 	return rep
+}
+
+// checkEmits: a verified function with emits clauses appends exactly those
+// events, in order, to the effect log (emits: on every outcome; emits_ok: on
+// normal return only), and nothing else.
+func (x *Exec) checkEmits(st *State, env *Env, c *Contract, fn *ssa.Function, normal bool) {
+	if len(c.Emits)+len(c.EmitsOK) == 0 || st.dead {
+		return
+	}
+	list := append([]string(nil), c.Emits...)
+	if normal {
+		list = append(list, c.EmitsOK...)
+	}
+	defer func() {
+		if r := recover(); r != nil {
+			if se, ok := r.(specError); ok {
+				x.errorf("emits of %s: %s", c.Key, se.msg)
+				return
+			}
+			panic(r)
+		}
+	}()
+	env.where = "emits of " + c.Key
+	log0 := x.heapInit("G$log", ArraySort("Int", "Event"), 0)
+	len0 := x.heapInit("G$loglen", "Int", 0)
+	want := log0
+	n := len0
+	for _, em := range list {
+		cond := TrueT
+		text := em
+		if j := strings.Index(em, " if "); j >= 0 {
+			text = strings.TrimSpace(em[:j])
+			cond = env.EvalBool(strings.TrimSpace(em[j+4:]))
+		}
+		ev := env.EvalText(text)
+		want = Ite(cond, Store(want, n, ev.T), want)
+		n = Ite(cond, Add(n, IntLit(1)), n)
+	}
+	cur := x.heapGet(st, "G$log", ArraySort("Int", "Event"))
+	curN := x.heapGet(st, "G$loglen", "Int")
+	where := "return"
+	if !normal {
+		where = "panic"
+	}
+	x.oblige(st, "emits", "exactly the declared events", where, And(Eq(curN, n), Eq(cur, want)), fn.Pos())
 }
 
 // checkFrame: the function's `modifies` clause is an obligation on its body.
@@ -260,6 +330,9 @@ func (x *Exec) checkFrame(st *State, c *Contract, fn *ssa.Function, args []Value
 		if cur.S == was.S {
 			continue
 		}
+		if (name == "G$log" || name == "G$loglen") && len(c.Emits)+len(c.EmitsOK) > 0 {
+			continue // checked exactly by checkEmits
+		}
 		objs, listed := mods[name]
 		if listed && (objs == nil || !strings.HasPrefix(sortS, "(Array Ref")) {
 			continue // ghost variable / scalar named in the clause
@@ -270,6 +343,9 @@ func (x *Exec) checkFrame(st *State, c *Contract, fn *ssa.Function, args []Value
 		}
 		var ds []string
 		for _, o := range objs {
+			ds = append(ds, fmt.Sprintf("(distinct ?r %s)", o.S))
+		}
+		for _, o := range st.lockHavoc[name] {
 			ds = append(ds, fmt.Sprintf("(distinct ?r %s)", o.S))
 		}
 		goal := Term{fmt.Sprintf("(forall ((?r Ref)) (! (=> (and (< (atime ?r) %s) %s) (= (select %s ?r) (select %s ?r))) :pattern ((select %s ?r))))",
@@ -309,7 +385,11 @@ func Discharge(obls []*Obligation, timeoutS int, confirm bool, workers int) {
 					ob.Result = r
 					continue
 				}
-				ob.Result = Solve(ob.Query, timeoutS, confirm)
+				t := timeoutS
+				if ob.Timeout > 0 && ob.Timeout < t {
+					t = ob.Timeout
+				}
+				ob.Result = Solve(ob.Query, t, confirm)
 			}
 		}()
 	}
